@@ -50,6 +50,9 @@ var (
 	OnTimer func()
 	// OnFire, when set, is told whenever a timer fires (an external event for threads waiting in a select).
 	OnFire func()
+	// GoHook, when set (cooperative scheduler), starts the function of an AfterFunc timer as a thread of the execution
+	// (time.AfterFunc runs f in its own goroutine).
+	GoHook func(f func())
 )
 
 // Timer mirrors time.Timer.
@@ -87,6 +90,9 @@ func AfterFunc(d Duration, f func()) *Timer {
 	t := &Timer{id: seq, fn: f}
 	arm(t, d)
 	mu.Unlock()
+	if OnTimer != nil {
+		OnTimer()
+	}
 	return t
 }
 
@@ -144,7 +150,11 @@ func fireDue() {
 		if t.fn != nil {
 			f := t.fn
 			mu.Unlock()
-			f()
+			if GoHook != nil {
+				GoHook(f)
+			} else {
+				f()
+			}
 			mu.Lock()
 			continue
 		}
